@@ -137,11 +137,30 @@ impl<F: Scalar> Distance<F> for TableDist<F> {
 // ---------------------------------------------------------------------------------------------
 // inputs
 
+thread_local! {
+    /// `sym` (rows that are symbolic; the others are fixed points of the domain) and `tolc` (fixed tolerance, 0 = symbolic)
+    static WIDE: std::cell::Cell<(usize, i64)> = std::cell::Cell::new((usize::MAX, 0));
+}
+/// wide / shallow instances: `sym=s` makes only the first s points symbolic, the remaining ones are fixed
+/// (an ascending run with gaps of 3, then points inside the gaps, one duplicate), `tolc=t` fixes the tolerance
+fn set_wide(p: &Params) {
+    WIDE.with(|w| w.set((p.get("sym", -1).max(-1) as usize, p.get("tolc", 0))));
+}
 fn coordinates<F: Scalar>(n: usize, d: usize, b: i64) -> Array2<F> {
+    let sym = WIDE.with(|w| w.get().0);
     let mut pts = Array2::from_elem((n, d), F::lit(0.0));
     for i in 0..n {
         for j in 0..d {
-            pts[(i, j)] = int::<F>(&format!("p{}_{}", i, j), -b, b);
+            pts[(i, j)] = if i < sym {
+                int::<F>(&format!("p{}_{}", i, j), -b, b)
+            } else {
+                // an ascending run (gaps of 3) followed by points inside its gaps, the last one a duplicate of the first:
+                // in row order a neighbourhood starts sorted by distance and nearer points come later
+                let (k, f) = ((i - sym) as i64, (n - sym) as i64);
+                let m = (2 * f + 2) / 3;
+                let v = if f >= 4 && k == f - 1 { -b } else if k < m { -b + 3 * k } else { -b + 3 * (k - m) + 1 };
+                F::lit((v + j as i64 * 3).clamp(-b, b) as f64)
+            };
         }
     }
     pts
@@ -369,12 +388,17 @@ fn tol_input<F: Scalar>(metric: usize, d: usize, b: i64) -> F {
         1 => 2 * b * d.max(1) as i64 + 1,
         _ => 2 * b + 1,
     };
+    let tolc = WIDE.with(|w| w.get().1);
+    if tolc > 0 {
+        return F::lit(tolc as f64);
+    }
     int::<F>("tolerance", 1, if metric == 2 { 2 * b * d.max(1) as i64 + 1 } else { hi })
 }
 
 /// integration layer: real coordinates, real indices.  kind = 0 ball tree, 1 k-d tree, 2 linear scan,
 /// -1 all three in one run plus the index-independence obligation.
 fn dbscan<F: Scalar>(p: &Params) {
+    set_wide(p);
     let (n, d, mp) = (p.u("n", 3), p.u("d", 1), p.u("mp", 2));
     let (metric, leaf, b, ties, mutation) = (p.u("metric", 1), p.u("leaf", 0), p.get("B", 1024), p.u("ties", 1), p.u("mut", 0));
     let kinds: Vec<usize> = match p.get("kind", -1) {
@@ -584,6 +608,7 @@ fn observe_optics<F: Scalar>(out: &[Opt<F>]) {
 
 /// integration layer, one index kind against the definition
 fn optics<F: Scalar>(p: &Params) {
+    set_wide(p);
     let (n, d, mp, kind) = (p.u("n", 3), p.u("d", 1), p.u("mp", 2), p.u("kind", 1));
     let (metric, leaf, b, ties, part, mutation) = (p.u("metric", 1), p.u("leaf", 0), p.get("B", 1024), p.u("ties", 1), p.u("part", 15), p.u("mut", 0));
     assert!(metric == 1 || metric == 3, "OPTICS calls Distance::distance, which concretises for L2");
@@ -601,6 +626,7 @@ fn optics<F: Scalar>(p: &Params) {
 /// index independence of the core distances: `pair` 0 = k-d tree vs ball tree, 1 = k-d tree vs linear scan,
 /// 2 = ball tree vs linear scan
 fn optics_index<F: Scalar>(p: &Params) {
+    set_wide(p);
     let (n, d, mp, pair) = (p.u("n", 3), p.u("d", 1), p.u("mp", 2), p.u("pair", 0));
     let (metric, leaf, b, ties, mutation) = (p.u("metric", 1), p.u("leaf", 0), p.get("B", 1024), p.u("ties", 1), p.u("mut", 0));
     assert!(metric == 1 || metric == 3, "OPTICS calls Distance::distance, which concretises for L2");
